@@ -745,6 +745,13 @@ impl Xot {
         let first_child = first_child.unwrap();
         // there is guaranteed to be a last child if there's a first child
         let last_child = self.last_child(node).unwrap();
+        // without a parent there is no place where multiple children could
+        // go: they would end up as siblings without a parent
+        if self.parent(node).is_none() && first_child != last_child {
+            return Err(Error::InvalidOperation(
+                "Cannot unwrap an element without parent that has multiple children".to_string(),
+            ));
+        }
         self.remove_element(node);
 
         let prev_node = self.previous_sibling(first_child);
